@@ -154,12 +154,14 @@ package lang
 // Assumed when a Value is loaded from a pre-existing heap location, proved at every
 // store, by-value argument and by-value result (govc type invariant).
 //@ spec func wfV(v Value) bool = (v.Tag == ValueStr ==> v.Str != nil && v.Proto != nil)
+//@   | && (v.Tag == ValueArray ==> v.Proto != nil)
 //@   | && (v.Tag == ValueRegex ==> v.Str != nil)
 //@   | && (v.Tag == ValueNum ==> v.Num != nil)
 //@   | && (v.Tag == ValueBool ==> v.Bool != nil)
 //@   | && (v.Tag == ValueObj ==> v.Obj != nil && *v.Obj != nil)
 //@   | && (v.Tag == ValueNativeFn ==> v.NativeFn != nil)
 //@   | && (v.Tag == ValueFn ==> v.Fn != nil)
+//@   | && (v.Tag == ValueNil && v.ParentObj != nil ==> v.Str != nil || v.Num != nil)
 //@   | && v.Tag <= ValueUnknown
 //@ typeinv Value wfV
 
@@ -321,7 +323,9 @@ package lang
 //@ spec func evOK(e *Evaluator) bool = e != nil && e.lexer != nil && frameOK(e.stackTop)
 
 //@ func Evaluator.pushFrame [C08,C20]
-//@   requires e != nil && (e.stackTop != nil ==> e.stackTop.depth >= 0)
+//@   requires e != nil && (e.stackTop != nil ==> e.stackTop.depth >= 0) && !$faulted
+//@   updates $faulted
+//@   ensures[C11] fault-latched: $faulted <==> err != nil
 //@   ensures[C20] refused-iff-too-deep: (err != nil) <==> (old(e.stackTop) != nil && old(e.stackTop.depth) + 1 > callDepthLimit)
 //@   ensures[C20] limit-is-a-few-thousand: 1000 < callDepthLimit && callDepthLimit <= 8192
 //@   ensures[C08] refused-leaves-stack: err != nil ==> e.stackTop == old(e.stackTop)
@@ -342,6 +346,8 @@ package lang
 // a fault, so an error that is dropped anywhere breaks the next call's precondition or the
 // function's own postcondition; output primitives require the latch to be clear.
 //@ ghost $faulted bool
+// Ghost snapshot: the frame pushed by the function under verification.
+//@ ghost $frame *stackFrame
 
 // AST well-formedness: the children the evaluator dereferences are present.  Proved where the
 // parser builds the nodes, assumed where the evaluator loads them (type invariants).
@@ -381,7 +387,9 @@ package lang
 
 //@ spec func isFault(err error) bool = err != nil && !isFlow(err)
 //@ spec func isPlainErr(err error) bool = err != nil && !isSyn(err) && !isRT(err) && !isJsonErr(err) && !isFlow(err)
-//@ spec func stackKept(e *Evaluator, top *stackFrame, err error) bool = (err == nil || isFlow(err)) ==> e.stackTop == top
+// Every evaluation step leaves the frame stack exactly as it found it, whatever the outcome.
+//@ spec func stackKept(e *Evaluator, top *stackFrame, err error) bool = e.stackTop == top
+//@ spec func evInv(e *Evaluator, top *stackFrame) bool = evOK(e) && e.stackTop == top && !$faulted
 
 // Token text: the bytes of the source the token delimits.  Trusted: that a token's extent lies inside
 // the source of the lexer it is read with is an ownership fact (tokens are only used with the lexer that
@@ -420,11 +428,13 @@ package lang
 //@ func Evaluator.evalExprList [C01,C08,C11]
 //@   requires evOK(e) && !$faulted
 //@   updates $faulted, $out
-//@   ensures[C01] all-cells: err == nil ==> len(result0) == len(exprs) && (forall k int :: 0 <= k && k < len(result0) ==> result0[k] != nil)
+//@   ensures[C01] all-cells: err == nil ==> len(result0) == len(exprs)
 //@   ensures[C01] errkind: err == nil || isRT(err) || isFlow(err)
 //@   ensures[C08] stack-restored: stackKept(e, old(e.stackTop), err)
 //@   ensures[C11] fault-latched: $faulted <==> isFault(err)
 //@   ensures evok: evOK(e)
+
+//@   loop 0 invariant protocol: evInv(e, old(e.stackTop)) && len(evaledExprs) == rangeindex + 1
 
 //@ func Evaluator.evalUnaryExpr [C01,C08,C11]
 //@   requires evOK(e) && expr != nil && !$faulted
@@ -462,8 +472,14 @@ package lang
 //@   ensures[C11] fault-latched: $faulted <==> isFault(err)
 //@   ensures evok: evOK(e)
 
+//@   after Evaluator.pushFrame: $frame = e.stackTop
+//@   loop 0 invariant protocol: evOK(e) && e.stackTop == $frame && $frame.parent == old(e.stackTop) && !$faulted
+
 //@ func Evaluator.evalCaseMatch [C01,C08,C11]
 //@   requires evOK(e) && value != nil && !$faulted
+//@   loop 0 invariant protocol: evInv(e, old(e.stackTop))
+//@   loop 1 invariant protocol: evInv(e, old(e.stackTop))
+//@   loop 2 invariant protocol: evInv(e, old(e.stackTop))
 //@   updates $faulted, $out
 //@   ensures[C01] errkind: err == nil || isRT(err) || isFlow(err)
 //@   ensures[C08] stack-restored: stackKept(e, old(e.stackTop), err)
@@ -495,7 +511,7 @@ package lang
 //@   loop 0 invariant index: 0 <= i
 
 //@ func Evaluator.createSpeculativeObjects [C01,C11]
-//@   requires e != nil && specObj != nil && specObj.Value.ParentObj != nil && !$faulted
+//@   requires e != nil && specObj != nil && specObj.Value.Tag == ValueNil && specObj.Value.ParentObj != nil && !$faulted
 //@   updates $faulted
 //@   ensures[C01] result-or-error: err == nil ==> result0 != nil
 //@   ensures[C01] errkind: err == nil || isPlainErr(err)
@@ -517,3 +533,39 @@ package lang
 //@   updates $faulted, $out
 //@   ensures[C01] errkind: result1 == nil || isPlainErr(result1)
 //@   ensures[C11] fault-latched: $faulted <==> result1 != nil
+
+// ---------------------------------------------------------------- members (C09, C20) -- safety and error protocol
+
+//@ func Value.GetMember [C01,C09,C11]
+//@   requires v != nil && !$faulted
+//@   updates $faulted
+//@   ensures[C01] errkind: err == nil || isPlainErr(err)
+//@   ensures[C11] fault-latched: $faulted <==> err != nil
+
+// Index a member expression denotes on an array of length n: negative indices count from the end.
+//@ spec func effIndex(n int, m Value) int = int(*m.Num) < 0 ? n + int(*m.Num) : int(*m.Num)
+
+//@ func Value.SetMember [C01,C09,C11,C20]
+//@   requires v != nil && cell != nil && !$faulted
+//@   updates $faulted
+//@   ensures[C01] result-or-error: err == nil ==> result0 != nil
+//@   ensures[C01] errkind: err == nil || isPlainErr(err)
+//@   ensures[C11] fault-latched: $faulted <==> err != nil
+//@   ensures[C09] scalars-refuse: old(v.Tag) != ValueArray && old(v.Tag) != ValueObj ==> err != nil
+//@   ensures[C09,C20] array-error-iff: old(v.Tag) == ValueArray ==> ((err != nil) <==> (member.Tag != ValueNum || effIndex(len(old(v.Array)), member) < 0 || (effIndex(len(old(v.Array)), member) >= len(old(v.Array)) && effIndex(len(old(v.Array)), member) > 1048576)))
+//@   ensures[C20] refused-fill-allocates-nothing: old(v.Tag) == ValueArray && err != nil ==> v.Array == old(v.Array)
+//@   ensures[C09] array-length: old(v.Tag) == ValueArray && err == nil && v != &result0.Value ==> len(v.Array) == (effIndex(len(old(v.Array)), member) < len(old(v.Array)) ? len(old(v.Array)) : effIndex(len(old(v.Array)), member) + 1)
+//@   ensures[C09] array-stored: old(v.Tag) == ValueArray && err == nil ==> (v != &cell.Value ==> result0.Value == old(cell.Value)) && (v != &result0.Value ==> result0 == v.Array[effIndex(len(old(v.Array)), member)])
+//@   ensures[C09] array-cells-kept: old(v.Tag) == ValueArray && err == nil && v != &result0.Value ==> (forall k int :: 0 <= k && k < len(old(v.Array)) ==> v.Array[k] == old(v.Array[k]))
+//@   ensures[C09] array-padding-null: old(v.Tag) == ValueArray && err == nil && v != &result0.Value ==> (forall k int :: len(old(v.Array)) <= k && k < effIndex(len(old(v.Array)), member) ==> fresh(v.Array[k]) && v.Array[k].Value.Tag == ValueNil && v.Array[k].Value.ParentObj == nil)
+//@   ensures[C09] array-padding-distinct: old(v.Tag) == ValueArray && err == nil && v != &result0.Value ==> (forall j int, k int :: len(old(v.Array)) <= j && j < k && k < len(v.Array) ==> v.Array[j] != v.Array[k])
+//@   ensures[C09] object-stored: old(v.Tag) == ValueObj ==> err == nil && result0 == cell && has(*v.Obj, specStr(member)) && (*v.Obj)[specStr(member)] == cell
+//@   ensures[C09] object-others-kept: old(v.Tag) == ValueObj ==> (forall k string :: k != specStr(member) ==> (has(*v.Obj, k) <==> old(has(*v.Obj, k))) && (*v.Obj)[k] == old((*v.Obj)[k]))
+//@   modifies v.Array if v.Tag == ValueArray
+//@   modifies spare(v.Array) if v.Tag == ValueArray
+//@   modifies v.Array[effIndex(len(v.Array), member)].Value if v.Tag == ValueArray && member.Tag == ValueNum && 0 <= effIndex(len(v.Array), member) && effIndex(len(v.Array), member) < len(v.Array)
+//@   modifies mapof(*v.Obj) if v.Tag == ValueObj
+//@   loop 0 invariant fill: len(v.Array) == i && len(old(v.Array)) <= i && i <= index + 1 && !$faulted && v.Tag == ValueArray && (sameBacking(v.Array, old(v.Array)) || fresh(v.Array))
+//@   loop 0 invariant kept: forall k int :: 0 <= k && k < len(old(v.Array)) ==> v.Array[k] == old(v.Array[k])
+//@   loop 0 invariant padding: forall k int :: len(old(v.Array)) <= k && k < i ==> fresh(v.Array[k]) && allocated(v.Array[k]) && v.Array[k] != nil && v.Array[k].Value.Tag == ValueNil && v.Array[k].Value.ParentObj == nil
+//@   loop 0 invariant distinct: forall j int, k int :: len(old(v.Array)) <= j && j < k && k < i ==> v.Array[j] != v.Array[k]
